@@ -237,6 +237,9 @@ func (r *runner) matchRead(res []byte) int {
 
 func (r *runner) doRead() bool {
 	var res []byte
+	if r.ab != nil {
+		r.ab.beginRead()
+	}
 	ret, detail := safely(func() error {
 		var err error
 		res, err = r.b.Read()
@@ -481,8 +484,37 @@ func (r *runner) race(writers, per int, lens []int) {
 	}
 	reads := []rres{}
 	close(startC)
+	// all writers returned and the reader has consumed every byte, yet Read does not return: the
+	// remaining reads can never complete; close the connection after a grace period (-> inconclusive)
+	stuck := make(chan struct{})
+	readsDone := make(chan struct{})
+	var once sync.Once
+	endReads := func() { once.Do(func() { close(readsDone) }) }
+	defer endReads()
+	go func() {
+		wg.Wait()
+		idle := 0
+		for idle < 400 {
+			select {
+			case <-readsDone:
+				return
+			case <-time.After(50 * time.Millisecond):
+			}
+			_, wire, consumed := r.wireState()
+			if wire == consumed {
+				idle++
+			} else {
+				idle = 0
+			}
+		}
+		close(stuck)
+		safely(r.b.Close)
+	}()
 	for i := 0; i < total; i++ {
 		var res []byte
+		if r.ab != nil {
+			r.ab.beginRead()
+		}
 		ret, detail := safely(func() error {
 			var err error
 			res, err = r.b.Read()
@@ -495,8 +527,13 @@ func (r *runner) race(writers, per int, lens []int) {
 			_, _, x.consumed = r.wireState()
 			x.rx = int(r.b.RxBytesCounterValue())
 		}
+		select {
+		case <-stuck:
+			ret = "timeout"
+		default:
+		}
 		if ret == "timeout" {
-			rec.Log("Inconclusive", "why", "watchdog: Read did not return")
+			rec.Log("Inconclusive", "why", "watchdog: Read did not return although every byte written was consumed")
 			return
 		}
 		reads = append(reads, x)
@@ -504,6 +541,7 @@ func (r *runner) race(writers, per int, lens []int) {
 			break
 		}
 	}
+	endReads()
 	wdone := make(chan struct{})
 	go func() { wg.Wait(); close(wdone) }()
 	select {
